@@ -4,6 +4,7 @@ import (
 	"encoding/json"
 	"fmt"
 	"sort"
+	"strings"
 
 	"github.com/gcash/bchd/chaincfg/chainhash"
 	"github.com/gcash/bchd/wire"
@@ -32,6 +33,9 @@ type c12Msg struct {
 	// DiffPos > 0: the hash list is built from two hashes that differ in exactly one byte
 	// (position DiffPos-1); Hashes then selects them by the digits '0' and '1'.
 	DiffPos int `json:"diff_pos,omitempty"`
+	// SharePtr: entries of the hash list that hold equal values are the SAME *chainhash.Hash object
+	// (a caller building the message by hand may do that; a decoder must compare values, not pointers)
+	SharePtr bool `json:"equal_hashes_share_one_object,omitempty"`
 	// Dense > 0: the message is the full proof of Dense distinct leaves with every flag bit set
 	// (Hashes and Flags are ignored), then damaged: the first DupPairs sibling pairs at tree level
 	// DupLevel are made equal (each a CVE-2012-2459 defect), the last DropHashes hashes and the last
@@ -118,8 +122,16 @@ func c12Eval(w *mc.W, cas c12Msg) {
 		}
 	}
 	msg := wire.MsgMerkleBlock{Transactions: cas.NumTx, Flags: flags}
+	shared := map[ref.Hash32]*chainhash.Hash{}
 	for i := range hashes {
 		h := chainhash.Hash(hashes[i])
+		if cas.SharePtr {
+			if p, ok := shared[hashes[i]]; ok {
+				msg.Hashes = append(msg.Hashes, p)
+				continue
+			}
+			shared[hashes[i]] = &h
+		}
 		msg.Hashes = append(msg.Hashes, &h)
 	}
 	var root *chainhash.Hash
@@ -309,7 +321,12 @@ func runC12(c *mc.Ctx) {
 		c.Space(fmt.Sprintf("transactions=%d: %d hash lists x 65793 flag strings", cnt, len(lists)), total)
 		c.ParFor(total, func(w *mc.W, i int64) {
 			w.State()
-			c12Eval(w, c12Msg{NumTx: cnt, Hashes: lists[i/nflags], Flags: flagOf(i % nflags)})
+			m := c12Msg{NumTx: cnt, Hashes: lists[i/nflags], Flags: flagOf(i % nflags)}
+			c12Eval(w, m)
+			if i%nflags <= 256 { // flag strings of 0 and 1 byte: also with equal hashes sharing one object
+				m.SharePtr = true
+				c12Eval(w, m)
+			}
 		})
 	}
 	c.Sample("msg", c12Msg{NumTx: 3, Hashes: "0112", Flags: "0b"})
@@ -387,6 +404,11 @@ func runC12(c *mc.Ctx) {
 		c.ParFor(int64(len(ds)), func(w *mc.W, i int64) {
 			w.State()
 			c12Eval(w, ds[i])
+			if ds[i].DupPairs > 0 && ds[i].Dense <= 600 {
+				m := ds[i]
+				m.SharePtr = true
+				c12Eval(w, m)
+			}
 		})
 		c.Sample("msg", c12Msg{NumTx: 512, Dense: 512, DupPairs: 256})
 	}
@@ -501,6 +523,11 @@ func runC12(c *mc.Ctx) {
 	c.ParFor(int64(len(muts)), func(w *mc.W, i int64) {
 		w.State()
 		c12Eval(w, muts[i])
+		if strings.Contains(muts[i].Hashes, "dup,") || strings.Contains(muts[i].Hashes, "copyprev,") {
+			m := muts[i]
+			m.SharePtr = true
+			c12Eval(w, m)
+		}
 	})
 	c.Sample("msg", muts[len(muts)/2])
 }
